@@ -36,4 +36,29 @@ CHECKS["C02"] = {
     "text": "SL[a.n] - DL[u] is evaluated at interior and exterior points (classified by an independent solid-angle winding number, at least one circum-diameter from the surface) for random affine u along regular orders 4,8,12,16; violated if the error at order 16 is >= 1e-6 max|u| or not >= 30x below order 4. The same density split into segment-wise P1/DP0 pieces (with and without swapped normals compensated by sign) must reproduce the whole-grid potential to 1e-11. A sample is recomputed under the bounds-checked serial Numba build and compared to 1e-10.",
     "note": "Trusted: winding-number classifier (vlib.refmodel); points with ambiguous classification are discarded.",
 }
+CHECKS["C04"] = {
+    "technique": "differential monitor between two code paths for the same integral (sub-space vs T'A_full T) + nesting convergence monitor + sanitizer-build replay",
+    "text": "For generated spaces S (DP0/DP1/P1/RWG/SNC x segment / support_elements subsets x include_boundary_dofs/truncate_at_segment_edge combinations x swapped normals, test and trial chosen independently, possibly with different normal flags) and operators of all families, the assembled matrix is compared to 1e-11 with T_test' A_full T_trial, A_full being the same operator on the full-grid element-wise space with the same local basis (observed 6e-16). Nested spaces: P' A_fine P vs A_coarse for grid.refine() and the barycentric refinement with a prolongation built geometrically by the check, decided by convergence along an order ladder. All cases are replayed under the bounds-checked serial Numba build and compared to 1e-10.",
+    "note": "T is the library's own map_to_full_grid (whose content C09 checks against its definition). Selections without DOFs are skipped.",
+}
+CHECKS["C06"] = {
+    "technique": "differential monitor: operator vs decomposition assembled from single-layer matrices and reference-model sparse maps; symmetry convergence monitor",
+    "text": "Hypersingular (Laplace, Helmholtz real/complex k, modified Helmholtz) and Maxwell electric-field matrices on generated P1 / RWG / SNC spaces (segments, boundary dofs, swapped normals, different flags for test and trial) are compared to 1e-11 with sum_c C_c'V0C_c - k^2 sum_c N_c'V1N_c resp. -ik sum_c R_c'V1R_c - 1/(ik) D'V0D, where V0/V1 are assembled by the library at the same orders and C, N, R, D are built by the check from vertex coordinates (observed 5e-15). W_0*1 = 0 on closed grids to 1e-12; complex symmetry of E and H decided by convergence in the singular order.",
+    "note": "V0/V1 come from the library (their correctness is decided by C01/C03/C05); the maps C,N,R,D are independent of bempp code.",
+}
+CHECKS["C07"] = {
+    "technique": "differential monitor: boundary matrix between disjoint grids vs library potential operator tested with reference shape functions; launch-log assertions",
+    "text": "For pairs of disjoint grids (closed/closed, closed/screen, screen/screen, separations 0.2-10 diameters, different sizes) the SL and DL matrices of Laplace/Helmholtz/modified Helmholtz and the Maxwell magnetic-field matrix are compared to 1e-11 with Q*Pot, Pot being the library's potential operator of each trial basis function at grid_B.map_to_point_cloud(r) and Q the test integration built from reference shape functions (observed 5e-16); the electric field is decided by convergence in r. The launch log must show grids_identical=False and no singular launch.",
+    "note": "Uses the library's regular rule nodes (C12 decides the rule). Adjoint double layer and hypersingular have no potential counterpart and are not covered here.",
+}
+CHECKS["C15"] = {
+    "technique": "solver-boundary monitor: manufactured solutions, dense residual recomputation, scipy callback interposition",
+    "text": "Well-conditioned single and blocked systems (real/complex, equal and unequal range/dual sizes, permuted block columns, generalized blocked) are solved with lu (direct and precomputed factors), gmres and cg in weak and strong form for tolerances 1e-4..1e-12 and restart/maxiter grids; the check recomputes the true residual from its own dense model, compares iteration counts and residual histories with the callbacks it observes by wrapping scipy's gmres/cg, demands info>0 when maxiter is hit, and checks that results live in the domain spaces.",
+    "note": "Convergence expectations come from running scipy on the check's dense model with the same settings; borderline cases only get consistency checks.",
+}
+CHECKS["C20"] = {
+    "technique": "clang ASan+UBSan on the OpenCL sources compiled as OpenCL C for the host + differential testing against the Numba kernels",
+    "text": "kernels.h and the four shapeset headers are parsed, a wrapper per function is generated and compiled as OpenCL C for x86-64 with -fsanitize=address,undefined for both precisions, linked with C++ shims for the OpenCL builtins; every one of the 56 functions (12 kernel families x novec/vec4/vec8/vec16, diff_vec*, shapesets) is run on random point pairs at distances 1e-3..1e3 and wavenumbers real/complex/imaginary/zero and compared, lane by lane, with the Numba kernel the repository's own tables pair it with (and the FMM helper for the gradient), tolerance 640 eps (1+|k|r) (observed <= 6 units). Any sanitizer report fails the run.",
+    "note": "Builtins are libm at the type's precision, not a GPU's native_*; far-field kernels use Re k in both backends (C08's matter).",
+}
 NOT_APPLICABLE = {}
